@@ -16,13 +16,11 @@
 (*             peers : Seq([proxy, slots : Seq(SR)])]       proxy view     *)
 (*  S      == store projection, see Broker.tla                             *)
 (***************************************************************************)
-EXTENDS Naturals, Integers, Sequences, FiniteSets, TLC
+EXTENDS Naturals, Integers, Sequences, FiniteSets, TLC, SequencesExt, FiniteSetsExt, Functions
 
 SLOT_NUM == 16384
 
-Range(s) == {s[i] : i \in DOMAIN s}
 SumSeq(s) == LET f[i \in 0..Len(s)] == IF i = 0 THEN 0 ELSE f[i-1] + s[i] IN f[Len(s)]
-FlattenSeq(ss) == LET f[i \in 0..Len(ss)] == IF i = 0 THEN <<>> ELSE f[i-1] \o ss[i] IN f[Len(ss)]
 Max2(a, b) == IF a >= b THEN a ELSE b
 
 RlNum(rl) == SumSeq([i \in DOMAIN rl |-> rl[i][2] - rl[i][1] + 1])
@@ -418,5 +416,33 @@ C18_Event(op, args, res, out, Spre, Spost) ==
     (IF op = "RemoveProxy" /\ res = "OK"
         /\ (args.addr \in FailedSet(Spost) \/ args.addr \in ReportedSet(Spost))
      THEN {"C18.remove_did_not_clear"} ELSE {})
+
+-----------------------------------------------------------------------------
+(* All monitors of one observed event `e` (record: op, args, res, out, S, obs) *)
+
+Limits == {0, 1, 2}
+EmptyHist == [lim \in Limits |-> <<>>]
+ResetOps == {"Init", "RestartFrom"}
+
+StateMon(e) ==
+    C01_Obs(e.obs) \cup C06_State(e.obs) \cup C10_State(e.S) \cup C12_State(e.S, e.obs.check, e.res)
+
+EventMon(pre, e) ==
+    LET op == e.op IN
+    C10_Event(op, e.args, e.res, pre.S, e.S, pre.obs) \cup
+    C12_Event(op, e.args, e.res, e.out, pre.S, e.S) \cup
+    C18_Event(op, e.args, e.res, e.out, pre.S, e.S) \cup
+    (IF op \notin ResetOps /\ op # "AgeFailures" THEN C06_Allocation(pre.S, e.S) ELSE {}) \cup
+    (IF op = "Failover" /\ e.res \in {"OK", "NO_AVAILABLE_RESOURCE"}
+        /\ ProxyCluster(pre.S, e.args.addr) # ""
+        /\ HasCV(pre.obs, 0, ProxyCluster(pre.S, e.args.addr))
+        /\ HasCV(e.obs, 0, ProxyCluster(pre.S, e.args.addr))
+     THEN C06_Failover(pre.S, CVOf(pre.obs, 0, ProxyCluster(pre.S, e.args.addr)),
+                       e.S, CVOf(e.obs, 0, ProxyCluster(pre.S, e.args.addr)), e.args.addr)
+     ELSE {})
+
+
+NewHist(h, obs) ==
+    [lim \in Limits |-> HistUpdate(h[lim], ViewAt(obs, lim).proxies)]
 
 =============================================================================
